@@ -92,6 +92,22 @@ func (g *opGen) argString(f *ast.FieldDefinition) string {
 			b := g.rng.Intn(2) == 0
 			lit, val = fmt.Sprint(b), b
 		default:
+			if td := g.schema.Types[a.Type.Name()]; td != nil && td.Kind == ast.InputObject {
+				if g.opt.Variables && g.rng.Intn(5) == 0 {
+					// the whole argument as one variable
+					name := fmt.Sprintf("v%d", len(g.vars))
+					_, val := g.inputValue(a.Type, 2, false)
+					g.vars = append(g.vars, "$"+name+": "+a.Type.String())
+					g.vals[name] = val
+					g.feat["variables"] = true
+					g.feat["input_object_variable"] = true
+					parts = append(parts, a.Name+": $"+name)
+				} else {
+					lit, _ := g.inputValue(a.Type, 2, g.opt.Variables)
+					parts = append(parts, a.Name+": "+lit)
+				}
+				g.feat["input_object_argument"] = true
+			}
 			continue
 		}
 		if g.opt.Variables && g.rng.Intn(2) == 0 {
@@ -122,6 +138,86 @@ func (g *opGen) argString(f *ast.FieldDefinition) string {
 	}
 	g.feat["arguments"] = true
 	return "(" + strings.Join(parts, ", ") + ")"
+}
+
+// inputValue renders a value of input type t as a literal (with variables at some leaves, at some lists and at
+// some nested objects when vars is set) together with the same value as JSON.
+func (g *opGen) inputValue(t *ast.Type, depth int, vars bool) (string, interface{}) {
+	asVar := func(val interface{}, decl string) string {
+		name := fmt.Sprintf("v%d", len(g.vars))
+		g.vars = append(g.vars, "$"+name+": "+decl)
+		g.vals[name] = val
+		g.feat["variables"] = true
+		g.feat["variable_inside_input_value"] = true
+		return "$" + name
+	}
+	if t.Elem != nil {
+		n := g.rng.Intn(3)
+		if depth <= 0 && g.schema.Types[t.Name()] != nil && g.schema.Types[t.Name()].Kind == ast.InputObject {
+			n = 0
+		}
+		var lits []string
+		vals := []interface{}{}
+		for i := 0; i < n; i++ {
+			l, v := g.inputValue(t.Elem, depth, vars)
+			lits = append(lits, l)
+			vals = append(vals, v)
+		}
+		if vars && n > 0 {
+			g.feat["variable_inside_list_literal"] = true
+		}
+		return "[" + strings.Join(lits, ", ") + "]", vals
+	}
+	td := g.schema.Types[t.NamedType]
+	if td != nil && td.Kind == ast.InputObject {
+		var lits []string
+		val := map[string]interface{}{}
+		fs := append(ast.FieldList{}, td.Fields...)
+		g.rng.Shuffle(len(fs), func(i, j int) { fs[i], fs[j] = fs[j], fs[i] })
+		want := 1 + g.rng.Intn(2)
+		for _, f := range fs {
+			if len(lits) >= want {
+				break
+			}
+			ftd := g.schema.Types[f.Type.Name()]
+			if ftd != nil && ftd.Kind == ast.InputObject && depth <= 0 {
+				continue
+			}
+			var l string
+			var v interface{}
+			if vars && g.rng.Intn(6) == 0 {
+				// the whole field value (list, object or scalar) as a variable
+				_, v = g.inputValue(f.Type, depth-1, false)
+				l = asVar(v, f.Type.String())
+			} else {
+				l, v = g.inputValue(f.Type, depth-1, vars)
+			}
+			lits = append(lits, f.Name+": "+l)
+			val[f.Name] = v
+		}
+		return "{" + strings.Join(lits, ", ") + "}", val
+	}
+	var lit string
+	var val interface{}
+	switch t.NamedType {
+	case "Int":
+		n := g.rng.Intn(5)
+		lit, val = fmt.Sprint(n), n
+	case "Boolean":
+		b := g.rng.Intn(2) == 0
+		lit, val = fmt.Sprint(b), b
+	default:
+		x := fmt.Sprintf("x%d", g.rng.Intn(9))
+		lit, val = fmt.Sprintf("%q", x), x
+	}
+	if vars && g.rng.Intn(2) == 0 {
+		decl := t.String()
+		if !t.NonNull && g.rng.Intn(3) == 0 {
+			decl += "!" // a stricter client declaration is acceptable at a nullable position
+		}
+		return asVar(val, decl), val
+	}
+	return lit, val
 }
 
 func (g *opGen) directive() string {
